@@ -27,7 +27,7 @@ type Ctx struct {
 	Prop           string
 
 	lockCache      *lockInfo
-	lockWrappers map[*ssa.Function][]string // functions that return with a parameter's mutex held (see locks())
+	lockWrappers   map[*ssa.Function][]string // functions that return with a parameter's mutex held (see locks())
 	refDerivedMemo map[*ssa.Function]map[ssa.Value]bool
 	refusalHelpers map[*ssa.Function]bool
 	entryMarks     map[*ssa.Function]*entrySection
